@@ -162,4 +162,94 @@ theorem trace_inv (cfg : Config) (hf : cfg.format ≠ .other) (hb : boundsOk cfg
 theorem start_inv (cfg : Config) : Inv cfg (start cfg).char :=
   ⟨rfl, by simp [start, init, good, wellTyped, inRange, finiteV, GVal.isNil], by simp [start, init, logTyped]⟩
 
+-- characteristics without a format ---------------------------------------------------------------------------------
+
+/-- a characteristic without a (known) format and without a typed remote-update callback: nothing is converted,
+    clamped or asserted — and, since the comparison is total (F50 repair), nothing can panic -/
+def Plain (c : Chr) : Prop := c.cfg.format = .other ∧ c.cfg.tcb = none
+
+theorem updateValue_plain (c : Chr) (h : Plain c) (v : GVal) (fc cp : Bool) :
+    (updateValue c v fc cp).2 = .ok ∧ Plain (updateValue c v fc cp).1 := by
+  obtain ⟨hf, ht⟩ := h
+  have hcc : convertClamp c.cfg v = some (some v) := by simp [convertClamp, convert, hf]
+  simp only [updateValue, hcc]
+  unfold commit
+  have hg : ∃ b, goEq c.value v = some b := by
+    cases c.value <;> cases v <;> exact ⟨_, rfl⟩
+  obtain ⟨b, hb⟩ := hg
+  simp only [hb]
+  split
+  · exact ⟨rfl, hf, ht⟩
+  · split
+    · exact ⟨rfl, hf, ht⟩
+    · exact ⟨by simp [cbOutcome, ht], hf, ht⟩
+
+theorem getValue_plain (c : Chr) (h : Plain c) (fc : Bool) (gf : Option GVal) :
+    (getValue c fc gf).2.1 = .ok ∧ Plain (getValue c fc gf).1 := by
+  cases gf with
+  | none => exact ⟨rfl, h⟩
+  | some v =>
+    have := updateValue_plain c h v fc false
+    simp only [getValue, this.1]
+    exact ⟨trivial, this.2⟩
+
+/-- the subscription half of the loop body: no panic, the characteristic is left alone -/
+theorem putEntry_tail_plain (s1 : St) (e : PutEntry) (h : Plain s1.char) :
+    let r : St × Outcome × Option Int :=
+      if JVal.isNull e.ev then (s1, .ok, none)
+      else if !s1.char.cfg.perms.ev then (s1, .ok, some statusNotificationNotSupported)
+      else match e.ev with
+        | .bool b => ({ s1 with sub := b }, .ok, none)
+        | _ => (s1, .ok, none)
+    r.2.1 = .ok ∧ Plain r.1.char := by
+  intro r
+  simp only [r]
+  split
+  · exact ⟨rfl, h⟩
+  · split
+    · exact ⟨rfl, h⟩
+    · split <;> exact ⟨rfl, h⟩
+
+theorem putEntry_plain (s : St) (h : Plain s.char) (e : PutEntry) :
+    (putEntry s e).2.1 = .ok ∧ Plain (putEntry s e).1.char := by
+  unfold putEntry
+  by_cases hn : JVal.isNull e.value = true
+  · simp only [hn, if_true]
+    exact putEntry_tail_plain ⟨s.char, s.sub⟩ e h
+  · have := updateValue_plain s.char h (ofJson e.value) true true
+    simp only [hn, Bool.false_eq_true, if_false, this.1]
+    exact putEntry_tail_plain ⟨_, s.sub⟩ e this.2
+
+theorem putEntries_plain (es : List PutEntry) : ∀ (s : St) (acc : List Int), Plain s.char →
+    (putEntries s es acc).2.1 = .ok ∧ Plain (putEntries s es acc).1.char := by
+  induction es with
+  | nil => intro s acc h; exact ⟨rfl, h⟩
+  | cons e es ih =>
+    intro s acc h
+    have he := putEntry_plain s h e
+    unfold putEntries
+    rcases hp : putEntry s e with ⟨s1, o, st⟩
+    rw [hp] at he
+    simp only at he
+    obtain ⟨ho, h1⟩ := he
+    subst ho
+    exact ih s1 _ h1
+
+theorem step_plain (s : St) (h : Plain s.char) (o : Op) : (step s o).2.outcome = .ok ∧ Plain (step s o).1.char := by
+  cases o with
+  | update v fc cp => exact updateValue_plain s.char h v fc cp
+  | get fc gf => exact getValue_plain s.char h fc gf
+  | put es => exact putEntries_plain es s [] h
+
+theorem trace_plain (ops : List Op) : ∀ (s : St), Plain s.char → ∀ so ∈ trace s ops, so.2.outcome = .ok := by
+  induction ops with
+  | nil => intro s _ so hso; simp [trace] at hso
+  | cons o os ih =>
+    intro s h so hso
+    have hs := step_plain s h o
+    simp only [trace, List.mem_cons] at hso
+    rcases hso with rfl | hso
+    · exact hs.1
+    · exact ih _ hs.2 so hso
+
 end Hc.Charac
